@@ -378,7 +378,7 @@ func init() {
 			"distinct = (operator, left repr, right repr, result repr) cells at Go level plus distinct Elk-level (variant, operator, reprs) cells",
 		NumCases: func(tier string) int {
 			if tier == "thorough" {
-				return P*P + 3_000_000 + 4000
+				return P*P + 1_000_000 + 4000
 			}
 			return P*P + 40_000 + 160
 		},
